@@ -939,7 +939,8 @@ def c15(tier, replay=None):
 
 # ------------------------------------------------------------------------------------------------
 def extra(tier, replay=None):
-    """Coverage beyond the listed properties (not in MANIFEST.json): spec/UseCount.tla against count_expr_uses."""
+    """Coverage beyond the listed properties (not in MANIFEST.json): spec/UseCount.tla against count_expr_uses,
+    spec/TypeCkGen.tla + Trace_TypeCk.tla against TypeCheck::type_check."""
     chk = Check("EXTRA", tier, "other")
     T = chk.thorough()
     corpus = expr_corpus(chk, SMALL_Q, [8])
@@ -949,11 +950,21 @@ def extra(tier, replay=None):
     pv.write_ndjson(chk.work / "in.ndjson", recs)
     pv.pv(["extras", "--in", chk.work / "in.ndjson", "--out", chk.work / "e1.ndjson", "--uses-out", chk.work / "uses.ndjson", "--random", 20000 if T else 2000])
     st = batch_check(chk, "UseCount", chk.work / "uses.ndjson", lambda rj, rec: {"why": rj["why"]}, lambda rj, rec: {"record": rec, "tlc": rj})
-    chk.cov["explanation"] = "count_expr_uses on ExprGen shapes and random DAGs against the definition in spec/UseCount.tla"
-    chk.cov["evaluations"] = st["records"]
-    chk.cov["distinct_nontrivial"] = st["records"]
-    chk.cov["traces_validated_against_impl"] = st["records"]
-    chk.sample({"records": st["records"]})
+    # E3: TypeCheck::type_check / get_type against the typing of Expr.tla on every descriptor of TypeCkGen.tla
+    descr, gen, dist = pv.generate("TypeCkGen", {}, "typeck", workers=4, deps=["TypeCkGen", "Expr", "BV"])
+    if gen:
+        chk.add_states(gen, dist)
+    pv.write_ndjson(chk.work / "tc_in.ndjson", descr)
+    p = pv.pv(["typeck", "--in", chk.work / "tc_in.ndjson", "--out", chk.work / "typeck.ndjson"])
+    tinfo = json.loads(p.stdout.strip().splitlines()[-1])
+    st3 = batch_check(chk, "Trace_TypeCk", chk.work / "typeck.ndjson", lambda rj, rec: {"why": rj["why"]}, lambda rj, rec: {"record": rec, "tlc": rj}, shards=8)
+    chk.part("typeck", **tinfo)
+    chk.cov["explanation"] = ("count_expr_uses on ExprGen shapes and random DAGs against the definition in spec/UseCount.tla; type_check / get_type on "
+                              "every operator x leaf kinds/widths x attribute descriptor of TypeCkGen.tla against the typing of Expr.tla")
+    chk.cov["evaluations"] = st["records"] + st3["records"]
+    chk.cov["distinct_nontrivial"] = st["records"] + st3["records"]
+    chk.cov["traces_validated_against_impl"] = st["records"] + st3["records"]
+    chk.sample({"records": st["records"], "typeck_records": st3["records"]})
     rc = chk.finish()
     (pv.EVID / "EXTRA.json").unlink(missing_ok=True)  # not a listed property: no evidence file
     return rc
